@@ -44,6 +44,7 @@ type engine struct {
 var engines = []engine{
 	{Name: "store-sim", Pkg: "./harness/store", Kind: "real storage/writer/reader/query code over simulated disk; histories, restarts, kills, I/O errors", Props: []string{"C01", "C03", "C04", "C05", "C12", "C26"}},
 	{Name: "query-sim", Pkg: "./harness/query", Kind: "real query engine over a database written by the real writer; worker count, memory mode, goroutine schedule and reader/writer interleaving decided by the simulator", Props: []string{"C06", "C08", "C11", "C30", "C31"}},
+	{Name: "capture-sim", Pkg: "./harness/capture", Sync: true, Kind: "real capture manager with simulated packet sources, fake clock, simulated disk and seeded scheduler at every seam (source calls, mutexes, file-system operations)", Props: []string{"C20", "C21", "C22", "C23", "C27", "C29"}},
 	{Name: "merge-sim", Pkg: "./harness/merge", Kind: "real MergeDatabases over a read-only source disk and a destination disk; generated database pairs; kills at every mutating operation", Props: []string{"C24", "C25"}},
 }
 
@@ -72,6 +73,9 @@ var propCfgs = map[string]propCfg{
 	"C30": {Level: "exploration", Quick: tierCfg{Runs: 40000, BudgetS: 40, MinS: 30}, Thorough: tierCfg{Runs: 4000000, BudgetS: 600, MinS: 120}},
 	"C06": {Level: "exploration", Quick: tierCfg{Runs: 40000, BudgetS: 40, MinS: 30}, Thorough: tierCfg{Runs: 4000000, BudgetS: 600, MinS: 120}},
 	"C31": {Level: "exploration", Quick: tierCfg{Runs: 40000, BudgetS: 40, MinS: 30}, Thorough: tierCfg{Runs: 4000000, BudgetS: 600, MinS: 120}},
+	"C20": {Level: "exploration", Quick: tierCfg{Runs: 40000, BudgetS: 40, MinS: 30}, Thorough: tierCfg{Runs: 4000000, BudgetS: 600, MinS: 120}},
+	"C21": {Level: "exploration", Quick: tierCfg{Runs: 40000, BudgetS: 40, MinS: 30}, Thorough: tierCfg{Runs: 4000000, BudgetS: 600, MinS: 120}},
+	"C23": {Level: "exploration", Quick: tierCfg{Runs: 40000, BudgetS: 40, MinS: 30}, Thorough: tierCfg{Runs: 4000000, BudgetS: 600, MinS: 120}},
 	"C05": {Level: "fault_enumeration", Quick: tierCfg{Runs: 96, BudgetS: 35, MinS: 30}, Thorough: tierCfg{Runs: 4000, BudgetS: 600, MinS: 120}},
 }
 
